@@ -53,8 +53,9 @@ def verify_tree():
     res = None
     b = None
     dropped = set()
-    for attempt in range(8):
-        b = vrun.build(force_assumed=forced, drop_ghost=sorted(dropped))
+    dropped_contracts = set()
+    for attempt in range(10):
+        b = vrun.build(force_assumed=forced, drop_ghost=sorted(dropped), drop_contract=sorted(dropped_contracts))
         res = vrun.run_verus(b['text'])
         fails, tool = vrun.classify(res, b['text'], b['registry'])
         for f in fails:
@@ -65,10 +66,10 @@ def verify_tree():
         hard = {f['fn'] for f in fails if f['fn'] and vrun.is_module_abort(f['msg'])} - forced
         # rustc/VIR errors located in one function (typically ghost text that no longer matches an edited body):
         # leave that function unverified (UNDECIDED for its properties only) and examine everything else
-        known = {c.name for c in b['contracts']}
+        known = {c.name for c in b['contracts']} | set(b.get('bodies', {}).keys())
         # ... as are constructs the verifier does not support (a std function without specification, ...): the function
         # that contains them is left unverified so that the rest of the crate is still examined
-        unsupported_re = r'not supported|unsupported|does not yet support|not yet supported'
+        unsupported_re = r'not supported|unsupported|does not yet support|not yet supported|must have a decreases clause|exec_allows_no_decreases_clause'
         comp = {t['fn'] for t in tool if (t.get('compile') or re.search(unsupported_re, t['msg'])) and t['fn'] in known} - forced
         if any(t.get('compile') and t['fn'] not in known for t in tool):
             # a compile error outside every function under contract: if it sits in a ghost-addition item (a lemma or a
@@ -89,6 +90,12 @@ def verify_tree():
         for t in tool:
             if (t.get('compile') or re.search(unsupported_re, t['msg'])) and t['fn'] in comp and t not in tool_hist:
                 tool_hist.append(t)
+        # a function that is already left unverified and still does not compile: its contract text itself no longer
+        # type-checks against the new signature -> drop the contract as well
+        again = {t['fn'] for t in tool if t.get('compile') and t['fn'] in forced and t['fn'] not in dropped_contracts}
+        if again:
+            dropped_contracts |= again
+            continue
         if not hard and not comp:
             break
         forced |= hard | comp
@@ -112,7 +119,7 @@ def verify_tree():
             if ok_seed is not None:
                 all_fail = [f for f in all_fail if f['fn'] != fn]
                 tool = [t for t in tool if t['fn'] != fn]
-    return {'build': b, 'failures': all_fail, 'tool': tool + [t for t in tool_hist if t not in tool], 'res': res, 'forced': sorted(forced), 'retried': retried, 'dropped_ghost': sorted(dropped)}
+    return {'build': b, 'failures': all_fail, 'tool': tool + [t for t in tool_hist if t not in tool], 'res': res, 'forced': sorted(forced), 'retried': retried, 'dropped_ghost': sorted(dropped), 'dropped_contracts': sorted(dropped_contracts)}
 
 
 def fn_results(res):
@@ -607,6 +614,7 @@ def main():
             'hidden_state_scan': ('clean: no static mut / interior mutability / globals / time / randomness / unsafe in src (excluding src/tests)' if pid == 'C14' and not scan_hits else scan_hits),
             'verus_run_cached': res.get('cached', False), 'verus_wall_s': res.get('wall_s'),
             'forced_assumed_after_module_abort': V['forced'],
+            'contracts_dropped_because_the_signature_changed': V.get('dropped_contracts', []),
             'ghost_items_dropped_because_they_no_longer_compile': ['%s: %s' % d_ for d_ in V.get('dropped_ghost', [])],
             'failing_functions_retried_with_other_seeds': {k_: ('discharged with seed %s' % v_ if v_ is not None else 'still failing') for k_, v_ in V.get('retried', {}).items()},
         },
